@@ -170,6 +170,12 @@ type LangID uint16
 // Derived languages not exactly supported are mapped to their primary part : for instance,
 // 'fr-be' is mapped to 'fr'
 func NewLangID(l Language) (LangID, bool) {
+	// an exact match in the second table has priority over a primary match in the first one
+	// (for instance 'ks-devanagari' must not be mapped to 'ks')
+	others := languagesInfos[knownLangsCount:]
+	if i := sort.Search(len(others), func(i int) bool { return others[i].lang >= l }); i != len(others) && others[i].lang == l {
+		return knownLangsCount + LangID(i), true
+	}
 	if i, ok := binarySearchLang(l, languagesInfos[:knownLangsCount]); ok {
 		return LangID(i), true
 	}
